@@ -43,27 +43,33 @@ def mainCurvaturesAtDesignPoint( dim, g, dg, distObjs, corrMat,
     _, J = natafTrans.getX( uCoord )
     JInv = np.linalg.inv( J )
 
-    # The limit state function in U space
-    def lsfAtU( U ):
-        return g( natafTrans.getX( U )[ 0 ] )
-
     if dg is None:
-        dgAtU = gradient( lsfAtU, dim, n=1, dx=dx )
-        lsfGradAtU = np.array( [ dgi( list( uCoord ) ) for dgi in dgAtU ], dtype=float )
-    else:
-        # JInv is partialX / partialU: chain rule for the gradient w.r.t. U
-        lsfGradAtX = [ dgi( xCoord ) for dgi in dg ]
-        lsfGradAtU = np.dot( JInv.T, lsfGradAtX )
+        dg = gradient( g, dim, n=1, dx=dx )
+
+    # JInv is partialX / partialU: chain rule for the gradient w.r.t. U
+    lsfGradAtX = np.array( [ dgi( xCoord ) for dgi in dg ], dtype=float )
+    lsfGradAtU = np.dot( JInv.T, lsfGradAtX )
     lsfGradNormAtU = np.linalg.norm( lsfGradAtU )
     alignVec = -1 * lsfGradAtU / lsfGradNormAtU
     A = np.eye( dim )
     B, _ = gramSchmidOrth( A, alignVec=alignVec )
     H = np.array( B[ :, [ idx for idx in range( 1, dim )] + [ 0 ] ], dtype=float ).T
-    # The Hessian is taken in U space directly so that the curvature of the 
-    # transformation itself is included
-    hm = hessianMatrix( lsfAtU, dim, dx=dx )
-    lsfHmAtU = np.array( [ [ hmij( list( uCoord ) ) for hmij in hmi ] for hmi in hm ], 
+
+    hm = hessianMatrix( g, dim, dx=dx )
+    lsfHmAtX = np.array( [ [ hmij( xCoord ) for hmij in hmi ] for hmi in hm ], 
                          dtype=float )
+    # Chain rule for the Hessian w.r.t. U: the marginal maps x_k = F_k^-1( Phi( z_k ) )
+    # with Z = L U are curved themselves, d2x_k / dz_k^2 = x_k' ( -z_k - ( ln f_k )' x_k' )
+    zCoord = np.dot( natafTrans.L, uCoord )
+    d2xdz2 = np.zeros( dim )
+    for k in range( dim ):
+        dxdz = stats.norm.pdf( zCoord[ k ] ) / distObjs[ k ].pdf( xCoord[ k ] )
+        h = 1e-5 * distObjs[ k ].std()
+        dlogpdf = ( distObjs[ k ].logpdf( xCoord[ k ] + h ) - 
+                    distObjs[ k ].logpdf( xCoord[ k ] - h ) ) / ( 2 * h )
+        d2xdz2[ k ] = dxdz * ( -zCoord[ k ] - dlogpdf * dxdz )
+    lsfHmAtU = np.dot( np.dot( JInv.T, lsfHmAtX ), JInv ) + \
+        np.dot( np.dot( natafTrans.L.T, np.diag( lsfGradAtX * d2xdz2 ) ), natafTrans.L )
     HBH = np.dot( np.dot( H, lsfHmAtU / lsfGradNormAtU ), H.T )
     eigVal = np.linalg.eig( HBH[ : dim - 1, : dim - 1 ] )
     ks = eigVal[ 0 ].tolist()
